@@ -67,7 +67,9 @@ class TreeGen:
 
     def fresh(self, prefix: str = "F") -> str:
         self.counter += 1
-        stem = self.rng.choice(["FLD", "ITEM", "REC", "AMT", "CODE", "COMP-TOTAL", "BINARY-FLAG", "DISPLAY-NM", "X", "Q"])
+        # data names that merely contain or begin with reserved words are ordinary COBOL (COMPANY-NAME!)
+        stem = self.rng.choice(["FLD", "ITEM", "REC", "AMT", "CODE", "COMP-TOTAL", "BINARY-FLAG", "DISPLAY-NM", "X", "Q",
+                                "COMPANY", "DISPLAYED", "EXTERNAL-ID", "GLOBAL-CT", "FILLER-X", "VALUE", "TIMES"])
         return f"{stem}-{self.counter}"
 
     def record(self) -> Node:
